@@ -140,7 +140,7 @@ struct TestSpec {
     bool prints = false; std::string out;
 };
 struct GroupSpec { std::string name; std::vector<TestSpec> tests; };
-struct Program { bool has_package = false; std::string package; std::vector<GroupSpec> groups; };
+struct Program { bool has_package = false; std::string package; std::vector<GroupSpec> groups; int repeat = 1; /* runs on ONE output object (-r2) */ };
 
 struct ScriptTest : Utest {
     const TestSpec* s;
@@ -190,13 +190,23 @@ void report(const std::string& sig, const std::string& desc, const std::string& 
 Verdict judge(const Program& p, const std::string& desc) {
     Verdict v;
     auto bad = [&](const std::string& sig, const std::string& detail) { v.mismatches++; report(sig, desc, detail); };
-    if (g_files.size() != p.groups.size())
-        bad(g_files.size() < p.groups.size() ? "files/fewer-than-groups" : "files/more-than-groups", vf::fmt("%zu files opened for %zu groups", g_files.size(), p.groups.size()));
+    size_t expected_files = p.groups.size() * (size_t)p.repeat;
+    if (g_files.size() != expected_files)
+        bad(g_files.size() < expected_files ? "files/fewer-than-groups" : "files/more-than-groups", vf::fmt("%zu files opened for %zu groups x %d runs", g_files.size(), p.groups.size(), p.repeat));
     if (g_foreign_close) bad("files/close-of-unknown-handle", "FClose called with a handle FOpen never returned");
-    size_t n = std::min(g_files.size(), p.groups.size());
-    for (size_t gi = 0; gi < n; gi++) {
-        const CapFile& f = *g_files[gi]; const GroupSpec& g = p.groups[gi];
-        std::string where = vf::fmt("file #%zu '", gi) + vf::esc(f.name) + "': ";
+    size_t n = std::min(g_files.size(), expected_files);
+    // captured output: the unchanged implementation keeps ONE buffer per output object that is never cleared, so the
+    // file of a group carries everything printed since the object was created. Accepted (each exactly): that, or
+    // everything printed since the start of the run, or what was printed during the group.
+    std::string printed_since_creation, printed_since_run_start;
+    for (size_t k = 0; k < n; k++) {
+        size_t gi = k % p.groups.size(), run = k / p.groups.size();
+        if (gi == 0) printed_since_run_start.clear();
+        const CapFile& f = *g_files[k]; const GroupSpec& g = p.groups[gi];
+        std::string printed; for (auto& t : g.tests) if (t.prints && t.outcome != IGN) printed += t.out;
+        std::string printed_before = printed_since_creation;
+        printed_since_creation += printed; printed_since_run_start += printed;
+        std::string where = vf::fmt("run %zu file #%zu '", run, gi) + vf::esc(f.name) + "': ";
         if (f.mode != "w") bad("files/open-mode", where + "opened with mode '" + f.mode + "'");
         if (!f.closed || f.closes != 1) bad("files/not-closed-once", where + vf::fmt("closed %d times", f.closes));
         if (f.writes_after_close) bad("files/write-after-close", where + vf::fmt("%d writes after close", f.writes_after_close));
@@ -247,15 +257,24 @@ Verdict judge(const Program& p, const std::string& desc) {
             }
         }
         std::vector<const XNode*> so = suite.children("system-out");
-        std::string printed; for (auto& t : g.tests) if (t.prints && t.outcome != IGN) printed += t.out;
         if (so.size() != 1) bad("system-out/not-exactly-one", where + vf::fmt("%zu system-out elements", so.size()));
-        else if (!so[0]->kids.empty() || !ends_with(so[0]->text, printed)) bad("system-out/text", where + "system-out reads '" + clip(so[0]->text, 300) + "', the group printed '" + vf::esc(printed) + "'");
+        else {
+            const std::string& got = so[0]->text;
+            bool ok = so[0]->kids.empty() && (got == printed_since_creation || got == printed_since_run_start || got == printed);
+            if (!ok) {
+                // narrow the failure mode: this group's text is there, but what precedes it is not the text of earlier groups
+                bool tail_ok = so[0]->kids.empty() && ends_with(got, printed) && !printed_before.empty();
+                bad(tail_ok ? "system-out/output-of-earlier-groups-altered" : "system-out/text",
+                    where + "system-out unescapes to '" + clip(got, 300) + "'; printed during this group '" + vf::esc(printed) + "', printed before it '" + clip(printed_before, 300) + "'");
+            }
+        }
     }
     return v;
 }
 
 std::string render(const Program& p) {
     std::string o = p.has_package ? "package '" + vf::esc(p.package) + "' " : "no package ";
+    if (p.repeat > 1) o += vf::fmt("[%d runs on one output object] ", p.repeat);
     for (auto& g : p.groups) {
         o += "group '" + vf::esc(g.name) + "' {";
         for (auto& t : g.tests) {
@@ -290,9 +309,11 @@ Verdict run_program(const Program& p) {
         {
             JUnitTestOutput out;
             if (p.has_package) out.setPackageName(p.package.c_str());
-            TestResult result(out);
-            reg.runAllTests(result);
-            vf::count("tests_run", (long)result.getTestCount());
+            for (int r = 0; r < p.repeat; r++) {        // what CommandLineTestRunner does for -rN: one output, a fresh TestResult per run
+                TestResult result(out);
+                reg.runAllTests(result);
+                vf::count("tests_run", (long)result.getTestCount());
+            }
         }
     }
     vf::ctx("judge");
@@ -314,14 +335,15 @@ std::vector<Pattern> patterns_up_to(int max_tests) {
     return v;
 }
 // idx enumerates (package?, number of groups, pattern of each group); both_packages = false: no package only
-void run_structure(const std::vector<Pattern>& pats, int max_groups, bool both_packages, long idx) {
+void run_structure(const std::vector<Pattern>& pats, int max_groups, bool both_packages, bool both_repeats, long idx) {
     long P = (long)pats.size();
-    bool pkg = false;
+    bool pkg = false; int repeat = 1;
     if (both_packages) { pkg = idx & 1; idx >>= 1; }
+    if (both_repeats) { repeat = 1 + (int)(idx & 1); idx >>= 1; }
     int ng = 1; long block = P;
     while (idx >= block) { idx -= block; block *= P; ng++; }
     if (ng > max_groups) vf::harness_error("structure index out of range");
-    Program p; p.has_package = pkg; p.package = "pkg";
+    Program p; p.has_package = pkg; p.package = "pkg"; p.repeat = repeat;
     int failed = 0, ignored = 0, total = 0;
     for (int g = 0; g < ng; g++) {
         const Pattern& pat = pats[idx % P]; idx /= P;
@@ -330,7 +352,7 @@ void run_structure(const std::vector<Pattern>& pats, int max_groups, bool both_p
             TestSpec ts; ts.name = vf::fmt("test_%d_%zu", g, t); ts.file = vf::fmt("tests/group%d.cpp", g); ts.line = (size_t)(100 * (g + 1) + 10 * t);
             ts.outcome = pat.outcomes[t]; ts.ffile = vf::fmt("src/helper%d.cpp", g); ts.fline = (size_t)(1000 * (g + 1) + 10 * t);
             ts.msg = vf::fmt("first failure of %d.%zu", g, t); ts.msg2 = vf::fmt("second failure of %d.%zu", g, t);
-            ts.prints = true; ts.out = vf::fmt("[out %d.%zu]\n", g, t);
+            ts.prints = true; ts.out = vf::fmt("[out %d.%zu <&> \"'x'\"]\r\n", g, t);
             failed += ts.outcome == FAIL || ts.outcome == FAIL2; ignored += ts.outcome == IGN; total++;
             gs.tests.push_back(ts);
         }
@@ -339,9 +361,32 @@ void run_structure(const std::vector<Pattern>& pats, int max_groups, bool both_p
     Verdict v = run_program(p);
     if (failed || ignored) vf::count("nontrivial");
     vf::outcome(vf::fmt("groups=%d failed=%s ignored=%s passed=%s pkg=%d %s", ng, failed > 1 ? "many" : failed ? "1" : "0", ignored > 1 ? "many" : ignored ? "1" : "0",
-                        total - failed - ignored > 0 ? "some" : "0", (int)pkg, v.notwf ? "not-well-formed" : v.mismatches ? "mismatch" : "faithful"));
+                        total - failed - ignored > 0 ? "some" : "0", (int)pkg + 2 * (repeat - 1), v.notwf ? "not-well-formed" : v.mismatches ? "mismatch" : "faithful"));
 }
-long structure_count(long P, int max_groups, bool both_packages) { long n = 0, b = 1; for (int g = 0; g < max_groups; g++) { b *= P; n += b; } return (both_packages ? 2 : 1) * n; }
+long structure_count(long P, int max_groups, bool both_packages, bool both_repeats = false) { long n = 0, b = 1; for (int g = 0; g < max_groups; g++) { b *= P; n += b; } return (both_packages ? 2 : 1) * (both_repeats ? 2 : 1) * n; }
+
+// ------------------------------------------------------------------ printed-text programs: every test of every group prints
+// (or does not print) a text of the alphabet; all tests pass
+void run_printed(int ng, int nt, const char* const* alphabet, long nA, bool both_repeats, long idx) {
+    Program p;
+    if (both_repeats) { p.repeat = 1 + (int)(idx & 1); idx >>= 1; }
+    int printing = 0, special = 0;
+    for (int g = 0; g < ng; g++) {
+        GroupSpec gs; gs.name = vf::fmt("Group%d", g);
+        for (int t = 0; t < nt; t++) {
+            long a = idx % (nA + 1); idx /= (nA + 1);
+            TestSpec ts; ts.name = vf::fmt("test_%d_%d", g, t); ts.file = vf::fmt("tests/group%d.cpp", g); ts.line = (size_t)(100 * (g + 1) + 10 * t);
+            ts.outcome = PASS; ts.prints = a > 0; if (a > 0) ts.out = alphabet[a - 1];
+            if (a > 0) { printing++; if (ts.out.find_first_of("&<>\"'\r\n") != std::string::npos) special++; }
+            gs.tests.push_back(ts);
+        }
+        p.groups.push_back(gs);
+    }
+    Verdict v = run_program(p);
+    if (special) vf::count("nontrivial");
+    vf::outcome(vf::fmt("printing=%d with-markup=%d runs=%d %s", printing, special, p.repeat, v.notwf ? "not-well-formed" : v.mismatches ? "mismatch" : "faithful"));
+}
+long ipow(long b, int e) { long r = 1; while (e-- > 0) r *= b; return r; }
 
 // ------------------------------------------------------------------ text programs
 enum { F_GROUP = 0, F_NAME, F_FILE, F_FFILE, F_PACKAGE, F_MSG, F_OUT, NFIELDS };
@@ -396,33 +441,53 @@ int main(int argc, char** argv) {
     {
         std::vector<Pattern> pats = patterns_up_to(3);
         long N = structure_count((long)pats.size(), 2, true);
-        vf::info("struct.bound", vf::fmt("all programs of 1..2 groups, each group one of the %zu outcome patterns of 1..3 tests over {pass, fail, fail twice (body + teardown), ignored}, x {no package, package}: %ld programs; every executed test prints a distinct line", pats.size(), N));
-        vf::section_index("struct", N, [&](long idx) { run_structure(pats, 2, true, idx); });
+        vf::info("struct.bound", vf::fmt("all programs of 1..2 groups, each group one of the %zu outcome patterns of 1..3 tests over {pass, fail, fail twice (body + teardown), ignored}, x {no package, package}: %ld programs; every executed test prints a distinct line that contains < & > \" ' CR LF", pats.size(), N));
+        vf::section_index("struct", N, [&](long idx) { run_structure(pats, 2, true, false, idx); });
         vf::require_outcomes("struct", 8);
     }
     {
         std::vector<Pattern> pats = patterns_up_to(2);
-        long N = structure_count((long)pats.size(), 3, true);
-        vf::info("struct3x2.bound", vf::fmt("all programs of 1..3 groups, each one of the %zu outcome patterns of 1..2 tests, x {no package, package}: %ld programs", pats.size(), N));
-        vf::section_index("struct3x2", N, [&](long idx) { run_structure(pats, 3, true, idx); });
+        long N = structure_count((long)pats.size(), 3, true, true);
+        vf::info("struct3x2.bound", vf::fmt("all programs of 1..3 groups, each one of the %zu outcome patterns of 1..2 tests, x {no package, package} x {one run, two runs on the same output object (-r2)}: %ld programs", pats.size(), N));
+        vf::section_index("struct3x2", N, [&](long idx) { run_structure(pats, 3, true, true, idx); });
         vf::require_outcomes("struct3x2", 8);
     }
     if (T) {
         std::vector<Pattern> pats = patterns_up_to(3);
         long N = structure_count((long)pats.size(), 3, false);
         vf::info("struct3x3.bound", vf::fmt("all programs of 1..3 groups, each one of the %zu outcome patterns of 1..3 tests, no package: %ld programs", pats.size(), N));
-        vf::section_index("struct3x3", N, [&](long idx) { run_structure(pats, 3, false, idx); });
+        vf::section_index("struct3x3", N, [&](long idx) { run_structure(pats, 3, false, false, idx); });
         vf::require_outcomes("struct3x3", 8);
     }
     if (T) {
         std::vector<Pattern> pats = patterns_up_to(4);
         long N = structure_count((long)pats.size(), 2, false);
         vf::info("struct2x4.bound", vf::fmt("all programs of 1..2 groups, each one of the %zu outcome patterns of 1..4 tests, no package: %ld programs", pats.size(), N));
-        vf::section_index("struct2x4", N, [&](long idx) { run_structure(pats, 2, false, idx); });
+        vf::section_index("struct2x4", N, [&](long idx) { run_structure(pats, 2, false, false, idx); });
         vf::require_outcomes("struct2x4", 8);
     }
 
     const char** atoms = T ? ATOMS_T : ATOMS_Q;
+    {
+        // printed text in any group: alphabet = no print + the text atoms (the blank and the file-name atom left out in quick)
+        static const char* OUT_Q[] = {"a", "&", "<", ">", "\"", "'", "\n", "\r", "&amp;", "&#10;", "]]>", "a&b<c>\"d'"};
+        static const char* OUT_S[] = {"a", "&", "<", "\n", "\""};
+        const char* const* oa = T ? ATOMS_T : OUT_Q; long nO = T ? (long)(sizeof ATOMS_T / sizeof *ATOMS_T) : (long)(sizeof OUT_Q / sizeof *OUT_Q);
+        long nS = (long)(sizeof OUT_S / sizeof *OUT_S) - (T ? 0 : 1);      // quick: without the quote
+        vf::info("out.alphabet", vf::fmt("every test passes and either prints nothing or one of %ld texts (%s); out3x2 uses {nothing, a, &, <, LF} (thorough: and \")", nO, T ? "all thorough text atoms" : "a & < > \" ' LF CR &amp; &#10; ]]> a&b<c>\"d'"));
+        vf::info("out2x1.bound", vf::fmt("2 groups x 1 test, (%ld+1)^2 print choices x {one run, two runs on one output object}", nO));
+        vf::section_index("out2x1", 2 * ipow(nO + 1, 2), [&](long idx) { run_printed(2, 1, oa, nO, true, idx); });
+        vf::require_outcomes("out2x1", 4);
+        vf::info("out3x1.bound", vf::fmt("3 groups x 1 test, (%ld+1)^3 print choices x {one run, two runs on one output object}", nO));
+        vf::section_index("out3x1", 2 * ipow(nO + 1, 3), [&](long idx) { run_printed(3, 1, oa, nO, true, idx); });
+        vf::require_outcomes("out3x1", 4);
+        vf::info("out2x2.bound", vf::fmt("2 groups x 2 tests, (%ld+1)^4 print choices, one run", nO));
+        vf::section_index("out2x2", ipow(nO + 1, 4), [&](long idx) { run_printed(2, 2, oa, nO, false, idx); });
+        vf::require_outcomes("out2x2", 4);
+        vf::info("out3x2.bound", vf::fmt("3 groups x 2 tests, (%ld+1)^6 print choices x {one run, two runs}", nS));
+        vf::section_index("out3x2", 2 * ipow(nS + 1, 6), [&](long idx) { run_printed(3, 2, OUT_S, nS, true, idx); });
+        vf::require_outcomes("out3x2", 4);
+    }
     long A = T ? (long)(sizeof ATOMS_T / sizeof *ATOMS_T) : (long)(sizeof ATOMS_Q / sizeof *ATOMS_Q);
     std::string atom_list; for (long i = 0; i < A; i++) atom_list += std::string(i ? " " : "") + "'" + vf::esc(atoms[i]) + "'";
     vf::info("text.program", "package P; group G { test N fails with message M at FF:1011 and prints O; N_ignored is ignored; N_passing passes and prints O; N_twice fails in body and teardown }; group G_2 { N passes and prints 'tail 'O }; all tests in file F; plain values: grp, tst, dir/file.cpp, dir/helper.cpp, pkg, msg, out");
